@@ -4,7 +4,13 @@
    Lang/Memo.v) and the terminate flag; the thread (time register, stacks,
    match table = capture results) is created afresh for every line, and
    C05_line_local therefore speaks about captures as well.  time_parse / add_years are the
-   Go time library (any functions); the wall clock is part of each line. *)
+   Go time library (any functions); the wall clock is part of each line.
+   Dimensioned metrics: a slot of the store is a scalar metric or one label set
+   of a metric with keys; EGet = dload (Metric.GetDatum, creates the label set),
+   EDel = del (Metric.RemoveDatum), EExpire = del ... after (Metric.ExpireDatum).
+   All statements quantify over every event list, these included.  A history
+   may also change the world WITHOUT the VM (hstep: HWorld f, f any function;
+   ext_del = Store.Gc removing label sets): *_after_external_change. *)
 From Coq Require Import List ZArith Bool.
 From V Require Import Lang.Memo Lang.TimeReg Proofs.MemoProofs Proofs.TimeRegProofs.
 Import ListNotations.
@@ -56,6 +62,49 @@ Theorem C05_lines_local :
     fst (run_lines_new time_parse add_years cfg more wv) =
     fst (run_lines_new time_parse add_years cfg more (fst wv, vm_init_new)).
 Proof. exact lines_local. Qed.
+
+(* MAIN, with the metrics also changed from outside the VM: for every history
+   of lines interleaved with arbitrary changes of the world that do not go
+   through the VM (a label set removed by the store's garbage collection:
+   HWorld (ext_del ms); or any other function world -> world), the next line
+   has exactly the effect it has in a freshly loaded VM started on the world
+   reached.  Whatever the VM remembers about label sets it looked up or
+   created on earlier lines cannot matter. *)
+Theorem C05_line_local_after_external_change :
+  forall time_parse add_years cfg (hist : list hstep) (l : line) (w0 : world),
+    let wv := run_hist_new time_parse add_years cfg hist (w0, vm_init_new) in
+    fst (run_line_new time_parse add_years cfg l wv) =
+    fst (run_line_new time_parse add_years cfg l (fst wv, vm_init_new)).
+Proof. exact line_local_ext. Qed.
+
+(* the same for any continuation, itself with changes from outside *)
+Theorem C05_history_local_after_external_change :
+  forall time_parse add_years cfg (hist more : list hstep) (w0 : world),
+    let wv := run_hist_new time_parse add_years cfg hist (w0, vm_init_new) in
+    fst (run_hist_new time_parse add_years cfg more wv) =
+    fst (run_hist_new time_parse add_years cfg more (fst wv, vm_init_new)).
+Proof. exact hist_local_ext. Qed.
+
+(* histories without outside changes are the histories of C05_line_local *)
+Theorem C05_history_of_lines :
+  forall time_parse add_years cfg (ls : list line) wv,
+    run_hist_new time_parse add_years cfg (map HLine ls) wv = run_lines_new time_parse add_years cfg ls wv.
+Proof. exact run_hist_lines. Qed.
+
+(* non-vacuity: `d[..]++` on two lines (2 @ 2000), the label set removed from
+   outside, then the same line again: a new datum, 1 @ 3000 (not 3); and with
+   `del d[..]` and `del d[..] after` on that line: no label set, one runtime
+   error *)
+Example C05_delete_and_recreate :
+  let wv2 := run_hist_new bogus_parse no_adj cfg0 [HLine (dim_line 1000); HLine (dim_line 2000)] (w_empty, vm_init_new) in
+  let wv := run_hist_new bogus_parse no_adj cfg0 dim_hist (w_empty, vm_init_new) in
+  store_get 7 (w_store (fst wv2)) = {| d_val := 2; d_time := 2000 |} /\
+  store_mem 7 (w_store (fst wv)) = false /\
+  w_store (fst (run_line_new bogus_parse no_adj cfg0 (dim_line 3000) wv)) =
+    [(0%N, {| d_val := 0; d_time := 0 |}); (7%N, {| d_val := 1; d_time := 3000 |})] /\
+  fst (run_line_new bogus_parse no_adj cfg0 (dim_del_line 3000) wv) =
+    {| w_store := [(0%N, {| d_val := 0; d_time := 0 |})]; w_errs := 1 |}.
+Proof. exact dim_delete_recreate. Qed.
 
 (* captures: the match table belongs to the thread, which is new for every
    line.  Whatever the history, reading a capture group of a regexp that no
@@ -124,6 +173,10 @@ Print Assumptions C05_memo_sound_preserved.
 Print Assumptions C05_memo_bounded.
 Print Assumptions C05_line_local.
 Print Assumptions C05_lines_local.
+Print Assumptions C05_line_local_after_external_change.
+Print Assumptions C05_history_local_after_external_change.
+Print Assumptions C05_history_of_lines.
+Print Assumptions C05_delete_and_recreate.
 Print Assumptions C05_captures_fresh.
 Print Assumptions C05_capture_reads_this_line.
 Print Assumptions C05_memo_refuted.
